@@ -58,14 +58,30 @@ def run(F, rep):
                 pt = a[0]
                 if not (is_node(pt) and pt[0] == "ptuple" and len(pt[1]) == 3):
                     continue
-                rows_p, cols_p = render_pat(pt[1][ri]).strip(), render_pat(pt[1][ci]).strip()
-                arm_key = "(%s,%s,%s)" % tuple(render_pat(x).strip() for x in pt[1])
+                # names bound by the arm's pattern are spelled canonically by their role (n: argument count, r: rows, c: columns):
+                # neither the key nor the comparison depends on what the arm calls them
+                ren = {}
+                for pos, sub in enumerate(pt[1]):
+                    role = "r" if pos == ri else ("c" if pos == ci else "n")
+                    for b_ in find(sub, "pident"):
+                        if b_[1] and (b_[1][0].islower() or b_[1][0] == "_"):
+                            ren.setdefault(b_[1], role)
+                canon = lambda txt: re.sub(r"[A-Za-z_]\w*", lambda m_: ren.get(m_.group(0), m_.group(0)), txt)
+                arm_lets = _let_inits(a[2])
+
+                def arg_txt(x):
+                    # a named local standing for an extent is read as its initialiser
+                    if is_node(x) and x[0] == "path" and x[1] in arm_lets and len(arm_lets[x[1]]) == 1 and x[1] not in ren:
+                        x = arm_lets[x[1]][0]
+                    return canon(re.sub(r"\s", "", render(x)))
+                rows_p, cols_p = canon(render_pat(pt[1][ri]).strip()), canon(render_pat(pt[1][ci]).strip())
+                arm_key = "(%s,%s,%s)" % tuple(canon(render_pat(x).strip()) for x in pt[1])
                 for c in find(a[2], "call"):
                     pth = path_of(c[1]) or ""
                     mm = re.match(r"^(DMatrix|DVector|RowDVector)::from_element$", pth)
                     if not mm or len(c[2]) < 2:
                         continue
-                    got = [re.sub(r"\s", "", render(x)) for x in c[2][:-1]]
+                    got = [arg_txt(x) for x in c[2][:-1]]
                     want = [rows_p, cols_p] if mm.group(1) == "DMatrix" else ([rows_p] if mm.group(1) == "DVector" else [cols_p])
                     key = "%s:%s:%s" % (it["mod"].split("::")[-1], arm_key, mm.group(1))
                     # a literal extent where the pattern binds a name (`(1, 1, n)` with a scalar argument: n is 1) is not decided
